@@ -83,6 +83,12 @@ func (cm *ControlMessage) Parse(b []byte) error {
 		if lvl != iana.ProtocolIP {
 			continue
 		}
+		if typ < 1 {
+			// An option name is equal or greater than 1; the
+			// options not available on the platform have no
+			// name and no parse function.
+			continue
+		}
 		switch {
 		case typ == ctlOpts[ctlTTL].name && l >= ctlOpts[ctlTTL].length:
 			ctlOpts[ctlTTL].parse(cm, m.Data(l))
